@@ -138,6 +138,7 @@ const (
 	opNewListOf
 	opNewListFrom
 	opSortInts
+	opContainsTwin
 	hNumListOps
 )
 
@@ -276,6 +277,17 @@ func (h *hHeap) apply(t int, op int) {
 		} else {
 			verifAssert(l.IndexOf(v) == first, "IndexOf is the first position holding the value, or -1")
 		}
+	case opContainsTwin:
+		// a fresh container with the same content as a stored one is a different value (containers are held
+		// and compared by reference)
+		var twin any
+		if nondetIntRange(0, 1) == 0 {
+			twin = h.lists[len(h.lists)-1].Clone()
+		} else {
+			twin = h.obj.Clone()
+		}
+		verifAssert(!l.Contains(twin), "Contains iff some element is the same value / identical container")
+		verifAssert(l.IndexOf(twin) == -1, "IndexOf is the first position holding the value, or -1")
 	case opNewListOf:
 		v, mv := h.valueFor(-1)
 		cnt := nondetIntRange(0, 2)
